@@ -332,7 +332,7 @@ def check_c16(tier):
             kind = "wrong-objective"
         if kind == "ok":
             pe["agree"] += 1
-            if len(samples) < 36 and (wi * 7 + (w or 0)) % 97 == 0:
+            if sum(1 for x in samples if x["example"] == ex) < 3 and (wi + (w or 0)) % 7 == 3:
                 samples.append({"example": ex, "shape": ins["shape"], "width": w, "threads": t, "oracle": opt, "printed": res["got"]})
             continue
         cls = ins["cls"] if opt is not None else "%s-infeasible" % ex
